@@ -30,7 +30,7 @@ def one(bid):
     json.dump(m, open(mp, "w"), indent=1)
     return bid, alarms
 
-ids = sorted(s for s in os.listdir(os.path.join(V, "benign")) if os.path.isdir(os.path.join(V, "benign", s)) and (not only or s in only))
+ids = sorted(s for s in os.listdir(os.path.join(V, "benign")) if os.path.isdir(os.path.join(V, "benign", s)) and (not only or s in only or s.split("-")[0] in only))
 with ThreadPoolExecutor(max_workers=3) as ex:
     for bid, alarms in ex.map(one, ids):
         print("%-28s %s" % (bid, "SILENT" if not alarms else "ALARMS " + ",".join(sorted(alarms))))
